@@ -743,6 +743,7 @@ WITNESS_MAP = [
     ("plain_extractor.py::", "plain.decode", None, None),
     ("_strip_rtf_full_with_pages/step", "rtf.source", None, None),
     ("_decode_unicode_run/", "rtf.unicode", None, None),
+    ("_append_full_text_from_element/policy#", "odt.body", None, None),
     ("_extract_slide/block#slide-text", "odp.slide", None, None),
     ("_extract_slide/block#speaker-notes", "odp.slide", None, ["leaked"]),
     ("xls_extractor.py::_format_sheet_as_text/", "xls.format", None, None),
